@@ -20,6 +20,7 @@ type emitSite struct {
 	length int // -1 unknown
 	key    string
 	bad    string
+	badErr string // the count is missing at an error exit
 }
 
 type bcAnalysis struct {
@@ -309,6 +310,31 @@ func (a *bcAnalysis) transfer(st *bcState, n ast.Node, par map[ast.Node]ast.Node
 		}
 		if !errExit {
 			a.exitCheck(st)
+		} else {
+			a.errExitCheck(st, x)
+		}
+	}
+}
+
+// errExitCheck: an error exit still reports what was emitted — a failing
+// write may have put part of its bytes on the wire, and the bytes of the
+// writes before it are certainly there.
+func (a *bcAnalysis) errExitCheck(st *bcState, ret *ast.ReturnStmt) {
+	// a bare return (named results) or `return n, err`: the count handed out is the accumulator
+	if len(ret.Results) == 2 && !a.isN(ret.Results[0]) {
+		if be, ok := unparen(ret.Results[0]).(*ast.BinaryExpr); ok && be.Op == token.ADD {
+			st = st.clone()
+			a.foldExpr(st, be)
+		} else if id, ok := unparen(ret.Results[0]).(*ast.Ident); ok && len(st.pending) == 1 && !st.nHas {
+			// `return _n, err` of the only write so far
+			if o := a.p.TypesInfo.ObjectOf(id); st.pending[o] != nil {
+				return
+			}
+		}
+	}
+	for k, s := range st.pending {
+		if _, isVar := k.(types.Object); isVar && s.badErr == "" {
+			s.badErr = "its byte count has not been added to the result at the error exit at " + a.c.pos(ret.Pos())
 		}
 	}
 }
@@ -372,7 +398,10 @@ func isReturn(n ast.Node) bool {
 
 // ruleByteCount analyses every method with results (int, error) whose
 // receiver type has an io.Writer field, in the given packages.
-func ruleByteCount(c *Ctx, rule string, shorts ...string) {
+func ruleByteCount(c *Ctx, rule string, shorts ...string) { ruleByteCountErr(c, rule, "", shorts...) }
+
+// ruleByteCountErr also reports, under rule onErr, counts missing at error exits.
+func ruleByteCountErr(c *Ctx, rule, onErr string, shorts ...string) {
 	nfun := 0
 	for _, short := range shorts {
 		p := c.pkg(short)
@@ -402,19 +431,31 @@ func ruleByteCount(c *Ctx, rule string, shorts ...string) {
 				for _, s := range a.order {
 					cnt[s.name]++
 					key := fmt.Sprintf("%s/emit %s#%d", fname, s.name, cnt[s.name])
-					if s.bad != "" {
-						c.bad(rule, key, s.call.Pos(), s.bad+": the returned byte count differs from the bytes emitted ("+exprStr(c.Fset, s.call)+")")
-					} else {
-						c.ok(rule, key, s.call.Pos(), "count reaches the result on every success path")
+					if rule != "" {
+						if s.bad != "" {
+							c.bad(rule, key, s.call.Pos(), s.bad+": the returned byte count differs from the bytes emitted ("+exprStr(c.Fset, s.call)+")")
+						} else {
+							c.ok(rule, key, s.call.Pos(), "count reaches the result on every success path")
+						}
+					}
+					if onErr != "" {
+						if s.badErr != "" {
+							c.bad(onErr, key, s.call.Pos(), s.badErr+": a write that fails part-way (a full disk, a closed pipe) has emitted the bytes it reports, and they are missing from the count the caller gets with the error ("+exprStr(c.Fset, s.call)+")")
+						} else {
+							c.ok(onErr, key, s.call.Pos(), "count reaches the result on every error exit as well")
+						}
 					}
 				}
-				if len(a.order) == 0 {
+				if len(a.order) == 0 && rule != "" {
 					c.triv(rule, fname+"/no-emitting-call", fd.Pos(), "no emitting call in this method")
 				}
 			}
 		}
 	}
 	if nfun == 0 {
+		if rule == "" {
+			rule = onErr
+		}
 		c.und(rule, "writers", token.NoPos, "no (int, error) writer methods found")
 	}
 }
